@@ -254,6 +254,9 @@ func Distinct(dt DT, shape []int) *T {
 		case dt == Bool:
 			// pattern without small period
 			return float64((i*i + i/2 + 1) % 2)
+		case dt == F64:
+			// not representable in float32: an implementation that rounds doubles through single precision differs
+			return float64(i+1)*0.75 - 2 + 1.0/3*1e-7
 		case dt.IsFloat():
 			return float64(i+1)*0.75 - 2
 		case dt.IsSigned():
